@@ -862,3 +862,21 @@ func init() {
 		},
 	})
 }
+
+func init() {
+	register(&PropDef{ID: "C19", Rule: "the workloads of C08 (concurrent start/stop/restart), C13 (scaling) and C14 (live update) with every request sent through the gin engine built by api.InitRoutes and decoded by the bundled client (in-process transport, no sockets), judged by the same oracles; plus reads (state, states, info, names, ports, hostname, project state) taken directly and through REST at the same instant and compared, and 3-10 invalid raw requests per run (unknown names, non-numeric and out-of-range path parameters, malformed bodies) that must be answered 4xx with a message, never 5xx, followed by GET /live; non-trivial = at least 3 HTTP round trips; distinct = distinct trace hash",
+		Gen: func(seed uint64, idx int, tier string) *Scenario {
+			return genC19(NewR(seed, 9), seed, idx, tier)
+		},
+		Check: checkC19,
+		NonTrivial: func(sc *Scenario, res *RunResult, t *Truth) bool {
+			n := 0
+			for i := range t.Events {
+				if t.Events[i].Kind == "http" {
+					n++
+				}
+			}
+			return n >= 3
+		},
+	})
+}
